@@ -352,7 +352,10 @@ def schedules():
 
 def base_texts():
     extra = st.sampled_from(["a: caf\xe9 \U0001F600\r\nb: 日本\r\n", "- \U00010000\U0010ffff\n- x\r\n", "k: 'a\r\n\r\n  b'\r\n", "\xe9: \xe9\n", "[\U0001F600, \xe9]\n",
-                             "--- |\r\n  \U0001F600\r\n...\r\n", "a: b\r", "\U0001F600"])
+                             "--- |\r\n  \U0001F600\r\n...\r\n", "a: b\r", "\U0001F600",
+                             # characters a position counter treats specially, INSIDE scalars and comments, followed by more tokens
+                             "k: a\ufeffb # c\ufeffd\nj: [x\ufeffy, 'q\ufeffr', \"s\ufefft\"]\n", "- |\n  l\ufeffm\n- n\ufeffo: p\n",
+                             "a\u200bb: c\u200dd # e\n[f\u2060g, h]: i\n", "k: e\u0301 \uff21 x\n- \u202ey: z\n"])
     return st.one_of(gi.rendered_texts(2, 8), gi.rendered_texts(2, 8), extra)
 
 
